@@ -814,6 +814,9 @@ class Gen:
             ms += ["__add__", "__mul__", "__sub__"]
         if kd == "table":
             ms += ["select", "insert", "update"]
+        if kd == "qb" and self.is_mutable(v):
+            # a mutable-mode builder stays a heap leaf: set operations would embed it in a new object
+            ms = [m for m in ms if m not in SETOPS and m not in ("__add__", "__mul__", "__sub__")]
         return ms
 
     METHOD_W = {
